@@ -198,20 +198,32 @@ func worker(id, tier, idx string) {
 }
 
 func replay(file string) int {
-	b, err := os.ReadFile(file)
+	reproduced, err := replayFile(file, func(s string) { fmt.Println(s) })
 	if err != nil {
 		fmt.Fprintln(os.Stderr, err)
 		return 2
 	}
+	if reproduced {
+		fmt.Println("=> the recorded violation is REPRODUCED on the current tree")
+	} else {
+		fmt.Println("=> the recorded violation does not occur on the current tree")
+	}
+	return 0
+}
+
+// replayFile re-executes a replay file; it reports whether the recorded signature occurred again.
+func replayFile(file string, out func(string)) (bool, error) {
+	b, err := os.ReadFile(file)
+	if err != nil {
+		return false, err
+	}
 	var rf engine.ReplayFile
 	if err := json.Unmarshal(b, &rf); err != nil {
-		fmt.Fprintln(os.Stderr, err)
-		return 2
+		return false, err
 	}
 	p := engine.Lookup(rf.Property)
 	if p == nil {
-		fmt.Fprintln(os.Stderr, "unknown property", rf.Property)
-		return 2
+		return false, fmt.Errorf("unknown property %s", rf.Property)
 	}
 	tier := rf.Tier
 	if tier == "" {
@@ -221,31 +233,29 @@ func replay(file string) int {
 		if u.Name != rf.Unit {
 			continue
 		}
-		if u.Replay == nil {
-			// product / fault / schedule units: the replay file names the failing input, fault point
-			// or schedule; re-run the unit and show whether that violation is reproduced.
-			fmt.Printf("re-running unit %s / %s (%s); recorded violation: %s\n  recorded case: %v\n", rf.Property, rf.Unit, tier, rf.Signature, rf.Actions)
-			r := u.Run(time.Time{})
-			found := false
-			for _, v := range r.Violations {
-				mark := "  other"
-				if v.Sig() == rf.Signature {
-					mark, found = "  REPRODUCED", true
+		out(fmt.Sprintf("replaying %s / %s (%s); recorded violation: %s", rf.Property, rf.Unit, tier, rf.Signature))
+		found := false
+		if u.Replay != nil {
+			err := u.Replay(rf.Actions, func(s string) {
+				out(s)
+				if strings.Contains(s, "!! "+rf.Signature) {
+					found = true
 				}
-				fmt.Printf("%s %s | %s | %v\n", mark, v.Sig(), v.Detail, v.Path)
-			}
-			if !found {
-				fmt.Println("  the recorded violation does not occur on the current tree")
-			}
-			return 0
+			})
+			return found, err
 		}
-		fmt.Printf("replaying %s / %s (%s)\nexpected: %s\n", rf.Property, rf.Unit, tier, rf.Signature)
-		if err := u.Replay(rf.Actions, func(s string) { fmt.Println(s) }); err != nil {
-			fmt.Println("replay error:", err)
-			return 2
+		// product / fault / schedule units: the file names the failing input, fault point or
+		// schedule; re-run the unit and look for the recorded signature
+		out(fmt.Sprintf("  recorded case: %v", rf.Actions))
+		r := u.Run(time.Time{})
+		for _, v := range r.Violations {
+			mark := "  other     "
+			if v.Sig() == rf.Signature {
+				mark, found = "  REPRODUCED", true
+			}
+			out(fmt.Sprintf("%s %s | %s | %v", mark, v.Sig(), v.Detail, v.Path))
 		}
-		return 0
+		return found, nil
 	}
-	fmt.Fprintln(os.Stderr, "unit not found:", rf.Unit)
-	return 2
+	return false, fmt.Errorf("unit not found: %s", rf.Unit)
 }
